@@ -12,6 +12,7 @@ CONSTANTS
     MaxReaps = 2
     ResumeScripts = {"noop", "close", "panic", "close_open"}
     OpenScripts = {"open", "open_panic", "open_close"}
+    Routes = {"unary", "pinit", "pcont", "xturn"}
     Toks = {"own", "bad"}
     Lags = {0}
     AadBinds = TRUE
